@@ -14,7 +14,7 @@ from . import c09
 PROPERTY = "C10"
 LEVEL = "fault_enumeration"
 RULE = (
-    "Faults = which registered check rejects.  For every installed generator (dbc, can_c, cpp, nop) "
+    "Faults = which registered check rejects.  For every installed generator (dbc, can_c, cpp, nop) and a probe plug-in of this harness (fcp_vfprobe: returns a file with empty contents, a file three directories down, a print result) "
     "a well-formed CAN schema with nodes of every verifier category (structs, fields, enums, bindings, "
     "signal blocks, devices, services) is driven through GeneratorManager.generate() (a) unchanged "
     "(must succeed and write exactly the files the plug-in's generate() returned, with exactly those "
@@ -34,7 +34,8 @@ ASSUMPTIONS = [
     "bytecode caching is disabled (sys.dont_write_bytecode) so imports do not show up as writes",
     "the parent of the output directory exists",
 ]
-GENERATORS = ["dbc", "can_c", "cpp", "nop"]
+GENERATORS = ["dbc", "can_c", "cpp", "nop", "vfprobe"]
+PROBE_PLUGIN_DIR = os.path.join(os.path.dirname(os.path.dirname(os.path.abspath(__file__))), "plugins")
 CATEGORIES = ["struct", "field", "enum", "impl", "signal_block", "type", "device", "uncategorized"]
 DIR_STATES = ["absent", "empty", "unrelated", "same-names", "stale-c"]
 # states that need the contents the plug-in is going to return (only used on the success path)
@@ -410,6 +411,8 @@ def cli_cases(run, root):
 
 def run(run):
     sys.dont_write_bytecode = True
+    if PROBE_PLUGIN_DIR not in sys.path:
+        sys.path.append(PROBE_PLUGIN_DIR)  # fcp_vfprobe: results the bundled generators do not produce
     root = env.scratch("c10")
     os.makedirs(os.path.join(root, "neighbour"))
     open(os.path.join(root, "neighbour", "keep.txt"), "w").write("neighbour\n")
@@ -425,7 +428,7 @@ def run(run):
             r = run.rng("base", b)
             t, decls = base_tree(r)
             rr = run.rng("drive", b, g)
-            names = {"dbc": ["can0.fcp", "default.fcp"], "can_c": ["ecu_can.c", "ecu_can.h", "can_frame.h"], "cpp": ["fcp.h", "buffer.h", "rpc.h"], "nop": ["x"]}[g]
+            names = {"dbc": ["can0.fcp", "default.fcp"], "can_c": ["ecu_can.c", "ecu_can.h", "can_frame.h"], "cpp": ["fcp.h", "buffer.h", "rpc.h"], "nop": ["x"], "vfprobe": ["probe.txt", "empty.marker"]}[g]
             # (a) positive, every directory state
             for ds in DIR_STATES + CONTENT_STATES:
                 drive(run, g, t, False, "none", ds, root, known_names=names)
@@ -460,6 +463,8 @@ def conclude(run):
 
 def replay(run, case):
     sys.dont_write_bytecode = True
+    if PROBE_PLUGIN_DIR not in sys.path:
+        sys.path.append(PROBE_PLUGIN_DIR)
     root = env.scratch("c10r")
     os.makedirs(os.path.join(root, "neighbour"))
     try:
